@@ -484,6 +484,22 @@ def c02(rep, tier):
                           (label is True and 'parsed_correctly' in show(cond) and not show(cond).startswith('!')) for cond, label, cn in gga.guards_of(ev))
     loops = [s for s in walk_stmts(ga['body']) if s['k'] == 'rangefor' and field_chain(s['range'])[1][-1:] == ['errors']]
     okg = okg and len(loops) == 1 and any(is_call(x, 'GenState::verr') or is_call(x, 'GenState::err') for x in walk_all_exprs(loops[0]['body']))
+    if okg:
+        # every one of them: inside the loop the forwarding call is reached on every path (no continue / condition in front of it)
+        fwl = [ev for ev in fw if any(x is ev.e for x in walk_all_exprs(loops[0]['body']))]
+        lcond = [n for n in gga.nodes if n.kind == 'cond' and n.stmt is loops[0]]
+        skipped = None
+        for ev in fwl:
+            inner = [(cond, label) for cond, label, cn in gga.guards_of(ev) if cn.stmt is not loops[0] and any(x is cn.stmt for x in walk_stmts(loops[0]['body']))]
+            if inner:
+                skipped = inner[0]
+        if any(s2['k'] in ('continue', 'break', 'return') for s2 in walk_stmts(loops[0]['body'])) and skipped is None and fwl:
+            ex_ = [s2 for s2 in walk_stmts(loops[0]['body']) if s2['k'] in ('continue', 'break', 'return')][0]
+            skipped = ({'k': 'str', 'v': '%s at line %d' % (ex_['k'], ex_['loc'][0])}, True)
+        if skipped is not None:
+            E.violation('gen_ast: every error is forwarded', 'inside the forwarding loop an error is passed on only under a condition (%s): a parse error that is skipped leaves the '
+                        'result without any error - and, if it was the only one, marked as generated correctly' % show(skipped[0])[:80],
+                        '%s:%d' % (rel(lib, ga['file']), loops[0]['loc'][0]), witness={'input': 'a source whose only error is reported at the placeholder position "-", -1 (too many macro substitutions)'})
     E.check(okg, 'gen_ast: errors forwarded', 'generation only when parsed_correctly; otherwise every parse error is forwarded',
             'an incorrectly parsed tree is generated, or its errors are dropped', '%s:%d' % (rel(lib, ga['file']), ga['loc'][1]))
     cf = lib.fn('Theo::compile')
@@ -712,6 +728,11 @@ def dangling_rule(rep, M, lib):
                     if m is None:
                         continue
                     o = strip_casts(x['obj'])
+                    if o is not None and v.get('is_ref') and m in ('operator[]', 'at') and x is strip_casts(init) and x.get('args') and \
+                            (o.get('cty') or '').replace('const ', '').startswith(('std::map<', 'std::unordered_map<')):
+                        # a reference to the mapped value of one key: it dies with the erasure of that key (or of everything)
+                        src = (show(o), 'key:' + show(strip_conv(x['args'][0])))
+                        break
                     if o is None or not _is_seq(o):
                         continue
                     if v.get('is_ref') and m in ELEMENT_ACCESS and x is strip_casts(init):
@@ -764,7 +785,19 @@ def dangling_rule(rep, M, lib):
                 e = iev.e
                 hits = []
                 m = _method(e)
-                if m in INVALIDATING and show(strip_casts(e['obj'])) == cont:
+                if how.startswith('key:'):
+                    # node-based container: only the removal of that very key (or of all keys) invalidates
+                    if m in ('clear', 'operator=', 'swap') and show(strip_casts(e['obj'])) == cont:
+                        hits.append(m)
+                    elif m in ('erase', 'extract') and show(strip_casts(e['obj'])) == cont and e.get('args'):
+                        a0 = strip_conv(e['args'][0])
+                        if is_call(a0, '::find') and a0.get('args'):
+                            a0 = strip_conv(a0['args'][0])
+                        if a0 is not None and 'key:' + show(a0) == how:
+                            hits.append(m)
+                    if not hits:
+                        continue
+                elif m in INVALIDATING and show(strip_casts(e['obj'])) == cont:
                     hits.append(m)
                 for c2, m2 in lam_inval.get(e.get('sid'), []):
                     if c2 == cont:
